@@ -250,6 +250,13 @@ func judgeC05(v *spec.View, in, out string) (sig, what string, nontrivial bool) 
 			return sig, "text " + m + " from inside a script/style element of the input appears in the output", true
 		}
 	}
+	// the same question under the other setting of the scripting flag: a browser with scripting disabled parses the
+	// content of noscript as markup, the tokenizer the sanitiser uses always reads it as raw text
+	for m := range markersInScriptStyleScriptingOff(in) {
+		if strings.Contains(out, m) {
+			return "body-text|noscript-scripting-off-tokenizer-differential", "text " + m + " from inside a script/style element within noscript (as a browser with scripting disabled parses it) appears in the output", true
+		}
+	}
 	// the same question put to an independent transcription of the standard's script-data states (x/net's tokenizer,
 	// which both the sanitiser and the tree builder above use, leaves the "<!--" escaped state too early)
 	if body, ok := whatwgScriptBody(in); ok {
